@@ -49,6 +49,15 @@ def spec_of(name):
         n["row"] = {"content": "cell+"}
         n["cell"] = {"content": "block+", "isolating": True}
         return {"nodes": n, "marks": _bm}
+    if name == "cx":
+        # unusual content expressions: star / plus first in a choice or optional group, bounded ranges
+        return {"nodes": {"doc": {"content": "(paragraph* | heading) sec*"},
+                          "sec": {"content": "(heading+ paragraph)? horizontal_rule{0,2}"},
+                          "paragraph": {"content": "inline*", "group": "block"},
+                          "heading": {"content": "text*", "attrs": {"level": {"default": 1}}},
+                          "horizontal_rule": {}, "text": {"group": "inline"},
+                          "hard_break": {"inline": True, "group": "inline"}},
+                "marks": {"em": _bm["em"]}}
     if name == "ni":
         # two non-inclusive marks adjacent in rank (link, comment) beside inclusive ones
         m = {"link": _bm["link"], "comment": {"inclusive": False, "excludes": ""}, "em": _bm["em"], "strong": _bm["strong"]}
@@ -74,7 +83,7 @@ MX = {
     "mx6": {"m0": {}, "m1": {"inclusive": False}, "m2": {"excludes": "m0 m1"}, "m3": {"excludes": "_"}},
 }
 
-ALL = ["basic", "list", "strict", "title", "fixed", "docmarks", "iso", "table", "ni", "mx1", "mx2", "mx3", "mx4", "mx5", "mx6"]
+ALL = ["basic", "list", "strict", "title", "fixed", "docmarks", "iso", "table", "ni", "cx", "mx1", "mx2", "mx3", "mx4", "mx5", "mx6"]
 
 _cache = {}
 
